@@ -47,6 +47,7 @@ type memAPI struct {
 	order      []string       // hashes in write order (write journal)
 	reads      []string       // hashes requested through Read (request journal)
 	fault      map[string]int // per-block fault kind
+	absentErr  error          // the error an absent block fails with (default: a plain "not found")
 	failWrites int            // the n-th write (1-based) fails; 0 = never
 	writes     int
 	onWrite    func(api *memAPI, hash string, obj interface{})
@@ -108,6 +109,9 @@ func (io *atomIO) Read(rctx context.Context, _ coreiface.CoreAPI, c cid.Cid) (fo
 	if api.fault[c.String()] == faultAbsent {
 		if api.gated {
 			vx.Gate(vx.CidKey(c))
+		}
+		if api.absentErr != nil {
+			return nil, api.absentErr
 		}
 		return nil, errors.New("block not found")
 	}
